@@ -5,7 +5,7 @@
 // extraction). Comments only; compiled only with -tags verif.
 //
 // Sections: a block under "//@ section <tags>" applies to every rendered variant that carries all the tags
-// (goCode | goObject, packed | unpacked). The goObject variants get the goCode contracts through the renamings
+// (lr: all of them; goCode | goObject, packed | unpacked; ts: the TypeScript driver, transliterated by /verif/govc/tsrender.go). The goObject variants get the goCode contracts through the renamings
 // below - both Go back ends are verified against the same contract text (property C08).
 package builder
 
@@ -37,8 +37,8 @@ func spec_userAction(r int, dollarDolar *StateSym, Dollar []StateSym)
 //@ renamekey goObject Parser=(*Context).Parser PushStateSym=(*Context).PushStateSym PopStateSym=(*Context).PopStateSym ReduceFunc=(*Context).ReduceFunc ParserInit=(*Context).ParserInit
 
 // =============================================================================================
-//@ section goCode
-// (everything in this section is also instantiated for goObject through the renamings)
+//@ section lr
+// (shared by every back end: the Go renderings and the transliterated TypeScript driver)
 
 // ghost output log of fmt.Printf calls: entry i has format printed_fmt(i) and arguments printed_str/int(i, k)
 //@ ghostvar tlen int
@@ -57,6 +57,10 @@ func spec_userAction(r int, dollarDolar *StateSym, Dollar []StateSym)
 //@     (spec_T(s, a) < 0 && 1 <= -spec_T(s, a) && -spec_T(s, a) < spec_nrules() && spec_item(s, -spec_T(s, a), spec_rhsLen(-spec_T(s, a))) && a <= spec_nT())
 //@ axiom TCgoto: forall s, x int :: 0 <= s && s < spec_nstates() && spec_nT() < x && x < spec_nsym() && spec_goto(s, x) >= 1 ==> spec_T(s, x) == spec_goto(s, x)
 //@ axiom TC0: forall s int :: 0 <= s && s < spec_nstates() ==> spec_T(s, 0) == spec_ERR()
+
+// =============================================================================================
+//@ section goCode
+// (everything in this section is also instantiated for goObject through the renamings)
 
 // stack invariant: bottom entry is state 0; every other entry was entered by the automaton's goto on its symbol
 //@ def INV(st []StateSym, sp int) = 1 <= sp && sp <= len(st) && st[0].Yystate == 0 &&
@@ -225,3 +229,129 @@ func spec_userAction(r int, dollarDolar *StateSym, Dollar []StateSym)
 //@ requires s != nil && 0 <= s.Yystate && s.Yystate < spec_nstates() && 0 <= a && a < spec_nsym() && tablesOK()
 //@ ensures [C01,C02,C05,C08] result == spec_T(s.Yystate, a)
 //@ modifies nothing
+
+// =============================================================================================
+//@ section ts
+// The TypeScript driver (Builder/TsGenCode.go: buildUionAndCode, buildStateFunc, buildReduceFunc, buildTranslate), as
+// emitted by the real generator and transliterated statement by statement (rules in /verif/govc/tsrender.go). Stack
+// entries are object references there, so the stack is a slice of pointers; the contracts are the ones of the Go
+// drivers restated over it: the three back ends are proved against the same table and the same step relation (C08).
+
+//@ def tablesOK() = ERROR_ACTION == spec_ERR() && ACCEPT_ACTION == spec_ACC() && len(StateActionArray) == spec_nstates() &&
+//@     (forall s int :: 0 <= s && s < spec_nstates() ==> len(StateActionArray[s]) == spec_nsym()) &&
+//@     (forall s, a int :: 0 <= s && s < spec_nstates() && 0 <= a && a < spec_nsym() ==> StateActionArray[s][a] == spec_T(s, a))
+
+//@ def INVp(st []*StateSym, sp int) = 1 <= sp && sp <= len(st) && (forall k int :: 0 <= k && k < sp ==> st[k] != nil && allocated(st[k])) && st[0].Yystate == 0 &&
+//@     (forall k int :: 1 <= k && k < sp ==> 0 < st[k].Yystate && st[k].Yystate < spec_nstates() && spec_goto(st[k-1].Yystate, st[k].YySymIndex) == st[k].Yystate)
+
+//@ lemma L_stackp(st []*StateSym, sp int)
+//@ props C01 C06 C07 C08 C15
+//@ induction d
+//@ use AP0, AP1
+//@ requires INVp(st, sp)
+//@ ensures forall k, r, d int :: 0 <= d && 0 <= k && k < sp && spec_item(st[k].Yystate, r, d) ==>
+//@     k >= d && spec_item(st[k-d].Yystate, r, 0) && (forall j int :: 0 <= j && j < d ==> st[k-d+1+j].YySymIndex == spec_rhs(r, j))
+
+//@ func (*StateSym).Action
+//@ props C01 C05 C06 C08
+//@ requires this != nil && 0 <= this.Yystate && this.Yystate < spec_nstates() && 0 <= a && a < spec_nsym() && tablesOK()
+//@ ensures [C01,C05,C08] result == spec_T(this.Yystate, a)
+//@ modifies nothing
+
+//@ func PushStateSym
+//@ props C01 C06 C07 C08 C15
+//@ requires 0 <= StackPointer && StackPointer <= len(StateSymStack)
+//@ ensures StackPointer == old(StackPointer) + 1 && StackPointer <= len(StateSymStack) && len(StateSymStack) >= old(len(StateSymStack))
+//@ ensures [C01,C07,C15,C08] StateSymStack[old(StackPointer)] == state
+//@ ensures [C01,C15,C08] forall k int :: 0 <= k && k < old(StackPointer) ==> StateSymStack[k] == old(StateSymStack[k])
+//@ modifies StateSymStack, StackPointer
+
+//@ func PopStateSym
+//@ props C01 C07 C08 C15 C06
+//@ ensures StackPointer == old(StackPointer) - num
+//@ modifies StackPointer
+
+// initialize() is what the property calls ParserInit for this back end: one entry (state 0, end marker), a NEW array
+//@ func initialize
+//@ props C15 C08 C07 C01 C06
+//@ ensures [C15,C08] StackPointer == 1 && len(StateSymStack) == 1 && StateSymStack[0] != nil && fresh(StateSymStack[0])
+//@ ensures [C15,C08] StateSymStack[0].Yystate == 0 && StateSymStack[0].YySymIndex == 1 && StateSymStack[0].ValType == nil
+//@ ensures [C15,C08,C07] fresh(backing(StateSymStack))
+//@ modifies StateSymStack, StackPointer
+//@ allocates StateSym
+//@ allocates arrays
+
+//@ func spec_userAction
+//@ trusted assumption A-act: a semantic action reads $1..$n and reads/writes $$ only (here: the members of the fresh union object of $$)
+//@ props C01 C07 C08 C15
+//@ requires dollarDolar != nil
+//@ modifies ValType.tsUserFields
+
+//@ func GetToken
+//@ trusted user code (epilogue): may replace and fill the token value and advance the position of the object it is given, nothing else (A-act)
+//@ props C01 C06 C08
+//@ requires model != nil
+//@ modifies model.ValType, model.pos, ValType.tsUserFields
+//@ allocates ValType
+
+//@ func consoleError
+//@ props C01 C06 C08
+//@ modifies nothing
+
+//@ func fetchLookAhead
+//@ props C01 C06 C08
+//@ requires model != nil
+//@ ensures 0 <= result && result <= spec_nT()
+//@ modifies model.ValType, model.pos, ValType.tsUserFields
+//@ allocates ValType
+
+//@ func translate
+//@ trusted derived from the emits clauses of (*TsBuilder).buildTranslate and the extraction obligation shape:translate-cases: terminals map to their symbol id, everything else to 0
+//@ props C01 C06 C08
+//@ ensures 0 <= result && result <= spec_nT()
+//@ modifies nothing
+
+//@ func ReduceFunc
+//@ props C01 C07 C08 C15
+//@ results dd
+//@ use SIZES
+//@ requires 1 <= reduceIndex && reduceIndex < spec_nrules()
+//@ requires 0 <= StackPointer - 1 - spec_rhsLen(reduceIndex) && StackPointer <= len(StateSymStack)
+//@ ensures [C01,C08] dd != nil && fresh(dd) && dd.YySymIndex == spec_lhs(reduceIndex)
+//@ ensures [C01,C07,C08] StackPointer == old(StackPointer) - spec_rhsLen(reduceIndex) && StateSymStack == old(StateSymStack)
+//@ ensures [C01,C08] forall p *StateSym :: old(allocated(p)) ==> p.Yystate == old(p.Yystate) && p.YySymIndex == old(p.YySymIndex) && p.ValType == old(p.ValType)
+// $$ starts with a fresh, empty union object and $0..$n is exactly the window of the top n+1 stack entries (C07, C15)
+//@ before_stmt [C07,C15,C08] "spec_userAction(" dollarDolar != nil && fresh(dollarDolar) && dollarDolar.ValType != nil && fresh(dollarDolar.ValType) &&
+//@     len(Dollar) == spec_rhsLen(reduceIndex) + 1 &&
+//@     (forall n int :: 0 <= n && n <= spec_rhsLen(reduceIndex) ==> Dollar[n] == StateSymStack[StackPointer-1-spec_rhsLen(reduceIndex)+n])
+//@ modifies StackPointer, ValType.tsUserFields
+//@ allocates StateSym
+//@ allocates ValType
+//@ allocates arrays
+
+//@ func Parser
+//@ props C01 C06 C07 C08 C15
+//@ results v
+//@ use SIZES, AP0, AP1, AP2, TC, TCgoto, TC0
+//@ requires INVp(StateSymStack, StackPointer) && tablesOK()
+//@ loop 0: invariant INVp(StateSymStack, StackPointer) && model != nil
+//@ loop 0: invariant 0 <= lookAhead && lookAhead <= spec_nT()
+//@ loop 0: use L_stackp(StateSymStack, StackPointer)
+// the action consulted is the table entry of (top state, lookahead) (C01, C08)
+//@ after_stmt [C01,C08] "action := state.Action(lookAhead)" state == StateSymStack[StackPointer-1] && action == spec_T(StateSymStack[StackPointer-1].Yystate, lookAhead)
+// accepted only in the accepting configuration: stack = [0, goto(0,S)]; the value returned is S's value
+//@ before_stmt [C01,C06,C07,C08] "return state.ValType" StackPointer == 2 && spec_item(StateSymStack[1].Yystate, 0, 1) && state == StateSymStack[1]
+// a shift happens only on a cell that is a transition of the automaton - never on an error entry (C06) - and pushes (target, lookahead, token value)
+//@ before_stmt [C06,C01,C08] "PushStateSym(sym)" action != ERROR_ACTION && action != ACCEPT_ACTION && 0 < action && action < spec_nstates() &&
+//@     spec_goto(StateSymStack[StackPointer-1].Yystate, lookAhead) == action && sym.Yystate == action && sym.YySymIndex == lookAhead && sym.ValType == model.ValType
+// a reduction by rule r happens only when the top |rhs(r)| stack symbols are rhs(r) (C01) - these are $1..$n (C07)
+//@ before_stmt [C01,C07,C08] "SymTy := ReduceFunc(-action)" 1 <= -action && -action < spec_nrules() && spec_rhsLen(-action) <= StackPointer - 1 &&
+//@     (forall n int :: 1 <= n && n <= spec_rhsLen(-action) ==> StateSymStack[StackPointer-1-spec_rhsLen(-action)+n].YySymIndex == spec_rhs(-action, n-1))
+// the entry pushed after a reduction is (goto(top, lhs r), lhs r, $$) (C01, C07)
+//@ before_stmt [C01,C08] "PushStateSym(SymTy)" SymTy.YySymIndex == spec_lhs(-action) && SymTy.Yystate == spec_goto(StateSymStack[StackPointer-1].Yystate, spec_lhs(-action)) &&
+//@     0 < SymTy.Yystate && SymTy.Yystate < spec_nstates()
+//@ modifies StateSymStack, StackPointer, StateSym.Yystate, StateSym.ValType, ValType.tsUserFields
+//@ allocates StateSym
+//@ allocates ValType
+//@ allocates tsModel
+//@ allocates arrays
